@@ -690,7 +690,22 @@ func (e *Eng) ghostBlock(stmts []ast.Stmt, c *ctx, h *Hook, at *ast.CallExpr) {
 			if err != nil {
 				panic(err)
 			}
-			g := e.specBool(sx, c)
+			var g string
+			func() {
+				defer func() {
+					if r := recover(); r != nil {
+						msg := fmt.Sprint(r)
+						if name == "assert" && strings.Contains(msg, "unknown name") {
+							// the assertion speaks about a variable that does not exist at this call
+							// site (a call added where the contract did not expect one): it cannot hold
+							g = "false"
+							return
+						}
+						panic(r)
+					}
+				}()
+				g = e.specBool(sx, c)
+			}()
 			switch name {
 			case "assert":
 				ord := e.callOrd[at]
